@@ -27,11 +27,30 @@ VARIANTS = {
 SIM_SOURCES = ["chibisim.cpp", "json.hpp", "build.sh"]
 
 
+class BuildError(Exception):
+    def __init__(self, cmd, output):
+        Exception.__init__(self, "build failed: %s" % " ".join(cmd))
+        self.cmd = cmd
+        self.output = output
+
+    def interpreter_failed(self):
+        """True when the step that failed is one where the freshly built interpreter of this variant runs a program of the
+        project itself (chibi-ffi generating a stub module, chibi-genstatic, the .meta/.img generation) -- as opposed to a
+        compiler or linker error."""
+        import re
+        out = self.output
+        if re.search(r"\b(error:|undefined reference|ld returned)", out):
+            return False
+        for m in re.finditer(r"FAILED: [^\n]*\n([^\n]*)", out):
+            if "/chibi-scheme " in m.group(1) or m.group(1).rstrip().endswith("/chibi-scheme"):
+                return True
+        return False
+
+
 def _run(cmd, env=None, cwd=None):
     p = subprocess.run(cmd, stdout=subprocess.PIPE, stderr=subprocess.STDOUT, env=env, cwd=cwd)
     if p.returncode != 0:
-        sys.stderr.write(p.stdout.decode("utf-8", "replace")[-6000:])
-        raise SystemExit("build failed: %s" % " ".join(cmd))
+        raise BuildError(cmd, p.stdout.decode("utf-8", "replace")[-8000:])
     return p.stdout
 
 
@@ -105,8 +124,14 @@ def build_variant(name, quiet=True):
 def build_all(names=None, quiet=True):
     import concurrent.futures as cf
     names = list(names or VARIANTS.keys())
+    def one(n):
+        try:
+            build_variant(n, quiet)
+        except BuildError as e:
+            e.variant = n
+            raise
     with cf.ThreadPoolExecutor(max_workers=len(names)) as ex:
-        list(ex.map(lambda n: build_variant(n, quiet), names))
+        list(ex.map(one, names))
 
 
 def modpath(name):
